@@ -131,3 +131,24 @@ Theorem active_after_keyword args prev cur params i :
 Proof.
   intros Hc Hp. unfold active_param, last_two. rewrite rev_app_distr. cbn [rev app]. rewrite Hc, Hp. reflexivity.
 Qed.
+
+(* ---- a comparison is not a keyword ---- *)
+Lemma split_on_first c : forall a acc r, forallb (fun x => negb (N.eqb x c)) a = true ->
+  split_on c (a ++ c :: r) acc = rev (rev a ++ acc) :: split_on c r [].
+Proof.
+  induction a as [|x a IH]; intros acc r H.
+  - cbn. now rewrite N.eqb_refl.
+  - cbn [forallb] in H. apply andb_true_iff in H as [Hx Ha]. apply negb_true_iff in Hx.
+    cbn [app split_on]. rewrite Hx. etransitivity; [apply (IH (x :: acc) r Ha)|]. cbn [rev]. rewrite <- app_assoc. reflexivity.
+Qed.
+
+Lemma split_on_nonempty c : forall s acc, split_on c s acc <> [].
+Proof. induction s as [|x s IH]; intro acc; cbn; [discriminate|]. destruct (N.eqb x c); [discriminate|apply IH]. Qed.
+
+Theorem comparison_not_keyword a b params :
+  forallb (fun x => negb (N.eqb x 61%N)) a = true -> check_optional (a ++ 61%N :: 61%N :: b) params = None.
+Proof.
+  intro Ha. unfold check_optional, split. rewrite (split_on_first 61%N a [] (61%N :: b) Ha).
+  cbn [split_on]. rewrite N.eqb_refl. cbn [rev].
+  destruct (split_on 61%N b []) as [|y ys] eqn:E; [exfalso; exact (split_on_nonempty _ _ _ E)|]. reflexivity.
+Qed.
